@@ -1148,7 +1148,16 @@ class HierarchicalMachine(Machine):
         if res is None:
             state_names = getattr(model, self.model_attribute)
             msg = "%sCan't trigger event '%s' from state(s) %s!" % (self.name, trigger, state_names)
-            for state_name in listify(state_names):
+            # the value of a parallel state nested in a parallel state is a list of lists: check the leaves
+            flat_names = []
+            queue = list(listify(state_names))
+            while queue:
+                state_name = queue.pop(0)
+                if isinstance(state_name, (list, tuple)):
+                    queue = list(state_name) + queue
+                else:
+                    flat_names.append(state_name)
+            for state_name in flat_names:
                 state = self.get_state(state_name)
                 ignore = state.ignore_invalid_triggers if state.ignore_invalid_triggers is not None \
                     else self.ignore_invalid_triggers
